@@ -96,3 +96,34 @@ func takeGlobal(k string) interface{} {
 	}
 	return nil
 }
+
+// receiver shapes: pointers, fields, defined types, values behind calls (a version gate must not depend on the shape)
+type stamp struct {
+	at  time.Time
+	ptr *time.Time
+}
+
+type myTime = time.Time
+
+func timesPtr(tp *time.Time, s stamp, ps *stamp, a myTime) (int64, int64, int64, int64, int64, int64) {
+	return tp.Unix() / 1000, tp.UnixNano() * 1000, s.at.UnixNano() / 1e6, ps.ptr.UnixNano() / 1000000, a.Unix() / 1000, (*tp).UnixNano() / 1e3
+}
+
+func nowTimes() (int64, int64) {
+	return time.Now().UnixNano() / 1e6, time.Now().Unix() / 1000
+}
+
+func cutShapes(ps *string, h struct{ s string }) (string, string, string, string) {
+	i := strings.Index(*ps, "=")
+	a, b := (*ps)[:i], (*ps)[i+1:]
+	j := strings.Index(h.s, ":")
+	c, d := h.s[:j], h.s[j+1:]
+	return a, b, c, d
+}
+
+func cutIf(s string) (k, v string) {
+	if i := strings.Index(s, "="); i != -1 {
+		k, v = s[:i], s[i+1:]
+	}
+	return
+}
